@@ -545,74 +545,83 @@ func EncodeDatapoint(mName []byte, tags *TagsHolder, dp float64, timestamp uint3
 	mSeg.rwLock.Unlock()
 
 	mSeg.Orgid = orgid
-	var ts *TimeSeries
-	var seriesExists bool
+
+	// Everything that belongs to this datapoint - the append to its series, the WAL buffer entry, the block's and the
+	// segment's time range and sizes - happens while the segment lock is held.  A block rotation (rotateBlock runs under
+	// the write lock) between the series lookup and the append flushed the block and dropped the TimeSeries: the datapoint
+	// was written into an object nobody reads any more (acknowledged but lost), the flush could read a series buffer that
+	// was being appended to, and the size added after the rotation made the next timer flush write an empty block.
+	account := func(bytesWritten uint64) error {
+		err := mSeg.mBlock.appendToWALBuffer(timestamp, dp, tsid)
+		if err != nil {
+			return err
+		}
+		mSeg.updateTimeRange(timestamp)
+		mSeg.mBlock.mBlockSummary.UpdateTimeRange(timestamp)
+		atomic.AddUint64(&mSeg.mBlock.blkEncodedSize, bytesWritten)
+		atomic.AddUint64(&mSeg.mSegEncodedSize, bytesWritten)
+		atomic.AddUint64(&mSeg.bytesReceived, nBytes)
+		atomic.AddUint64(&mSeg.datapointCount, 1)
+		return nil
+	}
+
 	mSeg.rwLock.RLock()
-	ts, seriesExists, err = mSeg.mBlock.GetTimeSeries(tsid)
+	ts, seriesExists, err := mSeg.mBlock.GetTimeSeries(tsid)
 	if err != nil {
 		mSeg.rwLock.RUnlock()
 		log.Errorf("EncodeDatapoint: failed to get time series for tsid=%v, metric=%s, orgid=%v, err=%v", tsid, mName, orgid, err)
 		return err
 	}
-	var bytesWritten uint64
-	mSeg.rwLock.RUnlock()
-
-	// if the series does not exist, create it. but it may have been created by another goroutine during the same time
-	// as a result, we will check again while holding the write lock
-	// In addition, we need to always write at least one datapoint to the series to avoid panics on time based flushing
-
-	if !seriesExists {
-		ts, bytesWritten, err = initTimeSeries(tsid, dp, timestamp)
-		if err != nil {
-			log.Errorf("EncodeDatapoint: failed to create time series for tsid=%v, dp=%v, timestamp=%v, metric=%s, orgid=%v, err=%v",
-				tsid, dp, timestamp, mName, orgid, err)
-			return err
+	if seriesExists {
+		bytesWritten, err := ts.AddSingleEntry(dp, timestamp)
+		if err == nil {
+			err = account(bytesWritten)
 		}
-		mSeg.rwLock.Lock()
-		exists, idx, err := mSeg.mBlock.InsertTimeSeries(tsid, ts)
-		if err != nil {
-			mSeg.rwLock.Unlock()
-			log.Errorf("EncodeDatapoint: failed to insert time series for tsid=%v, dp=%v, timestamp=%v, metric=%s, orgid=%v, err=%v",
-				tsid, dp, timestamp, mName, orgid, err)
-			return err
-		}
-		if !exists { // if the new series was actually added, add the tsid to the block
-			mSeg.mBlock.addTsidToBlock(tsid)
-		}
-		mSeg.rwLock.Unlock()
-		if exists {
-			bytesWritten, err = mSeg.mBlock.allSeries[idx].AddSingleEntry(dp, timestamp)
-			if err != nil {
-				log.Errorf("EncodeDatapoint: failed to add single entry for tsid=%v, dp=%v, timestamp=%v, metric=%s, orgid=%v, err=%v",
-					tsid, dp, timestamp, mName, orgid, err)
-				return err
-			}
-		}
-		err = tth.AddTagsForTSID(mName, tags, tsid)
-		if err != nil {
-			log.Errorf("EncodeDatapoint: failed to add tags for tsid=%v, metric=%s, orgid=%v, err=%v", tsid, mName, orgid, err)
-			return err
-		}
-	} else {
-		bytesWritten, err = ts.AddSingleEntry(dp, timestamp)
+		mSeg.rwLock.RUnlock()
 		if err != nil {
 			log.Errorf("EncodeDatapoint: failed to add single entry for tsid=%v, dp=%v, timestamp=%v, metric=%s, orgid=%v, err=%v",
 				tsid, dp, timestamp, mName, orgid, err)
-			return err
 		}
-	}
-	err = mSeg.mBlock.appendToWALBuffer(timestamp, dp, tsid)
-	if err != nil {
 		return err
 	}
+	mSeg.rwLock.RUnlock()
 
-	mSeg.updateTimeRange(timestamp)
-	mSeg.mBlock.mBlockSummary.UpdateTimeRange(timestamp)
-	atomic.AddUint64(&mSeg.mBlock.blkEncodedSize, bytesWritten)
-	atomic.AddUint64(&mSeg.mSegEncodedSize, bytesWritten)
-	atomic.AddUint64(&mSeg.bytesReceived, nBytes)
-	atomic.AddUint64(&mSeg.datapointCount, 1)
-
+	// The series does not exist in the current block: create it.  It may have been created by another goroutine in the
+	// meantime, so check again while holding the write lock.
+	// In addition, we need to always write at least one datapoint to the series to avoid panics on time based flushing
+	ts, bytesWritten, err := initTimeSeries(tsid, dp, timestamp)
+	if err != nil {
+		log.Errorf("EncodeDatapoint: failed to create time series for tsid=%v, dp=%v, timestamp=%v, metric=%s, orgid=%v, err=%v",
+			tsid, dp, timestamp, mName, orgid, err)
+		return err
+	}
+	mSeg.rwLock.Lock()
+	exists, idx, err := mSeg.mBlock.InsertTimeSeries(tsid, ts)
+	if err != nil {
+		mSeg.rwLock.Unlock()
+		log.Errorf("EncodeDatapoint: failed to insert time series for tsid=%v, dp=%v, timestamp=%v, metric=%s, orgid=%v, err=%v",
+			tsid, dp, timestamp, mName, orgid, err)
+		return err
+	}
+	if !exists { // if the new series was actually added, add the tsid to the block
+		mSeg.mBlock.addTsidToBlock(tsid)
+	} else {
+		bytesWritten, err = mSeg.mBlock.allSeries[idx].AddSingleEntry(dp, timestamp)
+	}
+	if err == nil {
+		err = account(bytesWritten)
+	}
+	mSeg.rwLock.Unlock()
+	if err != nil {
+		log.Errorf("EncodeDatapoint: failed to add single entry for tsid=%v, dp=%v, timestamp=%v, metric=%s, orgid=%v, err=%v",
+			tsid, dp, timestamp, mName, orgid, err)
+		return err
+	}
+	err = tth.AddTagsForTSID(mName, tags, tsid)
+	if err != nil {
+		log.Errorf("EncodeDatapoint: failed to add tags for tsid=%v, metric=%s, orgid=%v, err=%v", tsid, mName, orgid, err)
+		return err
+	}
 	return nil
 }
 
